@@ -41,7 +41,7 @@ struct Params {
     slack: u32,
 }
 
-fn gen(rng: &mut Rng) -> (Params, Vec<Op>) {
+fn gen_case(rng: &mut Rng) -> (Params, Vec<Op>) {
     let interval = *rng.pick(&[Duration::from_millis(100), Duration::from_millis(700), Duration::from_secs(1)]);
     let prune_backoff = match rng.usize(4) {
         0 => interval * (1 + rng.usize(6) as u32),
@@ -208,10 +208,10 @@ pub fn run(args: &Args) -> i32 {
         "a case = (heartbeat_interval, prune_backoff, slack) + PRNG history of update_backoff/heartbeat/advance on a frozen virtual clock, all pairs queried after every op; \
          non-trivial = history with at least one update that extends and one that would shorten an existing backoff, and at least one backoff observed forgotten; distinct by parameters + op history",
     );
-    let n = args.tier.pick(5_000u64, 200_000);
+    let n = args.tier.pick(5_000u64, 5_000_000);
     let peers = [PeerId::random(), PeerId::random(), PeerId::random()];
     vmon::par_cases(&check, n, args.threads, |i, rng| {
-        let (p, ops) = gen(rng);
+        let (p, ops) = gen_case(rng);
         let mut sg = Sig::new().u64(p.interval.as_nanos() as u64).u64(p.prune_backoff.as_nanos() as u64).u64(p.slack as u64);
         let opsj: Vec<String> = ops.iter().map(op_str).collect();
         for o in &opsj {
